@@ -406,6 +406,46 @@ theorem C04_raw_fstring_cex :
     cliargs cexCfg [.lit true true [36, 72]] none = [[47, 114]] ∧ cliargs cexCfg [.lit true false [36, 72]] none = [[36, 72]] := by
   decide
 
+/-! ## `@$(cmd)`: re-splitting line by line -/
+
+theorem splitlinesGo_line (l rest cur : Str) (h : ∀ c ∈ l, isLineEnd c = false) :
+    splitlinesGo (l ++ 10 :: rest) cur false = (cur.reverse ++ l) :: splitlinesGo rest [] false := by
+  induction l generalizing cur with
+  | nil => simp [splitlinesGo, isLineEnd]
+  | cons c cs ih =>
+    have hc := h c (List.mem_cons_self ..)
+    have hc10 : c ≠ 10 := by
+      intro e; subst e; simp [isLineEnd] at hc
+    simp only [List.cons_append, splitlinesGo, hc10, false_and, if_false, hc, Bool.false_eq_true]
+    rw [ih (c :: cur) (fun x hx => h x (List.mem_cons_of_mem _ hx))]
+    simp
+
+/-- text made of lines that are each ended by `\n` is cut back into exactly those lines -/
+theorem pySplitlines_lines (ls : List Str) (h : ∀ l ∈ ls, ∀ c ∈ l, isLineEnd c = false) :
+    pySplitlines (ls.flatMap (· ++ [10])) = ls := by
+  unfold pySplitlines
+  induction ls with
+  | nil => simp [splitlinesGo]
+  | cons l ls ih =>
+    simp only [List.flatMap_cons, List.append_assoc, List.singleton_append]
+    rw [splitlinesGo_line l _ [] (h l (List.mem_cons_self ..))]
+    simp only [List.reverse_nil, List.nil_append]
+    rw [ih (fun x hx => h x (List.mem_cons_of_mem _ hx))]
+
+/-- THE CONTRACT of `@$()`: for EVERY per-line splitter and every output, the arguments are the
+concatenation of what the splitter answers for each line on its own, in order — the splitter never sees
+two lines at once (so a backslash at the end of a line continues nothing, and the indentation of one
+line means nothing to the next).  An implementation that hands the joined text to the lexer is a
+correspondence break: the harness compares with this function. -/
+theorem C04_captured_inject_per_line (split : Str → List Str) (ls : List Str)
+    (h : ∀ l ∈ ls, ∀ c ∈ l, isLineEnd c = false) :
+    capturedInject split (ls.flatMap (· ++ [10])) = ls.flatMap split := by
+  unfold capturedInject
+  rw [pySplitlines_lines ls h]
+
+example : capturedInject (fun l => [l]) [67, 58, 92, 10, 32, 110, 10] = [[67, 58, 92], [32, 110]] := by decide
+example : pySplitlines [97, 13, 10, 98, 12, 99, 10, 10] = [[97], [98], [99], []] := by decide
+
 /-! ## hand-off: callable alias and real process -/
 
 theorem resolve_s (args : List Str) : resolveArgsList (args.map .s) = args := by
